@@ -410,8 +410,9 @@ class Config:
                         case line if command in self.DATA_KEYS:
                             key, data = line.split(maxsplit=1)
                             data = data.split()
+                            # The same URL may be spelled with trailing slashes
                             data_options.setdefault(key, {}).setdefault(
-                                data[0], []
+                                data[0].rstrip("/"), []
                             ).extend(data[1:])
                         case _:
                             self._log.warning(f"Unknown line in config: {line}")
